@@ -390,8 +390,86 @@ func (k *collector) flush(c *vlib.Ctx) {
 // ---------- worker context: one storage directory and registry factory per worker ----------
 
 type wctx struct {
-	dir string
-	reg *updater.ResourceRegistry // one registry per worker directory; resources are reset for every history
+	dir  string
+	reg  *updater.ResourceRegistry // one registry per worker directory; resources are reset for every history
+	disk map[string]string         // what the harness left in the storage directory: path -> file | empty-dir | non-empty-dir
+}
+
+// reconcile makes the storage directory hold exactly want (path -> kind).
+func (wc *wctx) reconcile(want map[string]string) error {
+	if wc.disk == nil {
+		wc.disk = map[string]string{}
+	}
+	for p, k := range wc.disk {
+		if want[p] != k {
+			var err error
+			if k == "non-empty-dir" {
+				err = os.RemoveAll(p)
+			} else {
+				err = os.Remove(p)
+			}
+			if err != nil {
+				return err
+			}
+			delete(wc.disk, p)
+		}
+	}
+	for p, k := range want {
+		if wc.disk[p] == k {
+			continue
+		}
+		var err error
+		switch k {
+		case "file":
+			// one system call per file: hard link to a template file of this worker
+			tmpl := filepath.Join(wc.dir, "template-file")
+			err = os.Link(tmpl, p)
+			if err != nil && os.IsNotExist(err) {
+				if err = os.MkdirAll(filepath.Dir(p), 0o755); err == nil {
+					if err = os.WriteFile(tmpl, []byte("x"), 0o644); err == nil {
+						err = os.Link(tmpl, p)
+					}
+				}
+			}
+		case "empty-dir":
+			err = os.MkdirAll(p, 0o755)
+		case "non-empty-dir":
+			if err = os.MkdirAll(p, 0o755); err == nil {
+				err = os.WriteFile(filepath.Join(p, "content"), []byte("x"), 0o644)
+			}
+		}
+		if err != nil {
+			return err
+		}
+		wc.disk[p] = k
+	}
+	return nil
+}
+
+// observe lists the directories of the wanted paths once after the implementation ran, drops from the record
+// what is no longer there and returns what is.
+func (wc *wctx) observe(want map[string]string) map[string]bool {
+	listed := map[string]map[string]bool{}
+	present := make(map[string]bool, len(want))
+	for p := range want {
+		d := filepath.Dir(p)
+		names, ok := listed[d]
+		if !ok {
+			names = map[string]bool{}
+			if es, err := os.ReadDir(d); err == nil {
+				for _, e := range es {
+					names[e.Name()] = true
+				}
+			}
+			listed[d] = names
+		}
+		if names[filepath.Base(p)] {
+			present[p] = true
+		} else {
+			delete(wc.disk, p)
+		}
+	}
+	return present
 }
 
 // registry returns the worker's registry with no resources and the given settings.
@@ -782,6 +860,7 @@ var phases = map[string][]string{
 
 type world struct {
 	c      *vlib.Ctx
+	wc     *wctx
 	dir    string
 	reg    *updater.ResourceRegistry
 	res    *updater.Resource
@@ -1040,8 +1119,19 @@ var opGetFile = opDef{"GetFile", "GetFile", func(w *world) string {
 	return "GetFile:handed-out"
 }}
 
-func opPurge(keep int) opDef {
-	return opDef{fmt.Sprintf("Purge(%d)", keep), "Purge", func(w *world) string {
+func opPurge(keep int) opDef { return opPurgeObstructed(keep, "", 0) }
+
+var obstaclePositions = []string{"oldest", "second-oldest", "third-oldest"}
+
+// opPurgeObstructed: Purge(keep) on a storage directory in which the file of the pos-th oldest version that is
+// on disk has been replaced by a directory (kind "non-empty-dir": os.Remove fails on it; "empty-dir": os.Remove
+// deletes it like a file). kind "" = no obstacle. The obstacle lives for this one Purge.
+func opPurgeObstructed(keep int, kind string, pos int) opDef {
+	name := fmt.Sprintf("Purge(%d)", keep)
+	if kind != "" {
+		name = fmt.Sprintf("Purge(%d,%s@%s)", keep, kind, obstaclePositions[pos])
+	}
+	return opDef{name, "Purge", func(w *world) string {
 		before := snapshot(w.res)
 		// materialise the files of every version that is on disk
 		var nums []string
@@ -1051,42 +1141,53 @@ func opPurge(keep int) opDef {
 			}
 		}
 		sort.Strings(nums)
+		obstacle := ""
+		if kind != "" && (pos >= len(nums) || len(before.list) < 4) {
+			// no such file, or a list too short for any purge (a needed version plus two further ones always stay):
+			// the plain Purge operation covers this state
+			return "Purge:obstacle-not-applicable"
+		}
+		if kind != "" {
+			byAge := append([]string{}, nums...)
+			sort.SliceStable(byAge, func(a, b int) bool { return mustVer(byAge[a]).cmp(mustVer(byAge[b])) < 0 })
+			obstacle = byAge[pos]
+		}
+		// bring the worker's storage directory to exactly this state (only the differences to what the previous
+		// history left there are written or removed)
+		onDisk := map[string]string{}
 		for _, n := range nums {
 			p := w.storage(n)
-			if err := os.MkdirAll(filepath.Dir(p), 0o755); err != nil {
-				w.c.EngineError("mkdir: %v", err)
+			onDisk[p] = "file"
+			if n == obstacle {
+				onDisk[p] = kind
 			}
-			if err := os.WriteFile(p, []byte(n), 0o644); err != nil {
-				w.c.EngineError("write: %v", err)
-			}
-			if err := os.WriteFile(p+".sig", []byte("sig"), 0o644); err != nil {
-				w.c.EngineError("write: %v", err)
-			}
+			onDisk[p+".sig"] = "file"
 		}
-		defer func() {
-			for _, n := range nums {
-				_ = os.Remove(w.storage(n))
-				_ = os.Remove(w.storage(n) + ".sig")
-			}
-		}()
+		if err := w.wc.reconcile(onDisk); err != nil {
+			w.c.EngineError("storage directory: %v", err)
+			w.bad = true
+			return "Purge:engine-error"
+		}
 		anyBlack := false
 		for _, x := range before.list {
 			anyBlack = anyBlack || x.B
 		}
 		w.reg.Purge(keep)
 		after := snapshot(w.res)
+		// look at every path once
+		present := w.wc.observe(onDisk)
 		intact := map[string]bool{}
 		deleted := 0
 		for _, n := range nums {
-			intact[n] = exists(w.storage(n)) && exists(w.storage(n)+".sig")
+			intact[n] = present[w.storage(n)] && present[w.storage(n)+".sig"]
 			if !intact[n] {
 				deleted++
 			}
-			w.files[n] = exists(w.storage(n))
+			w.files[n] = present[w.storage(n)]
 		}
 		w.purged += deleted
 		if w.verbose {
-			fmt.Printf("    Purge(%d): files before %v, intact after %v\n", keep, nums, intact)
+			fmt.Printf("    %s: files before %v (obstacle at %q), intact after %v\n", name, nums, obstacle, intact)
 		}
 		// (a) needed versions
 		type need struct{ what, num string }
@@ -1134,8 +1235,8 @@ func opPurge(keep int) opDef {
 		}
 		// (c) listed as available only if the file exists
 		for _, x := range after.list {
-			if x.A && !exists(w.storage(x.Num)) {
-				w.violate("lists-only-existing-files", "Purge", "available-without-file", fmt.Sprintf("after Purge(%d) the resource lists %s as available, its file %s is gone; before: %s; after: %s", keep, x.Num, refVersionedPath(resID, x.Num), before, after))
+			if x.A && !present[w.storage(x.Num)] { // a path that was not on disk before the purge is not there now either
+				w.violate("lists-only-existing-files", "Purge", "available-without-file", fmt.Sprintf("after %s (obstacle at version %q) the resource lists %s as available, its file %s is gone; before: %s; after: %s", name, obstacle, x.Num, refVersionedPath(resID, x.Num), before, after))
 				break
 			}
 		}
@@ -1143,6 +1244,8 @@ func opPurge(keep int) opDef {
 			return "Purge:violation"
 		}
 		switch {
+		case deleted > 0 && obstacle != "" && present[w.storage(obstacle)] && !present[w.storage(obstacle)+".sig"]:
+			return fmt.Sprintf("Purge:removed-files-but-not-the-obstacle:listed-%d-of-%d", len(after.list), len(before.list))
 		case deleted > 0:
 			return fmt.Sprintf("Purge:removed-files:listed-%d-of-%d", len(after.list), len(before.list))
 		case anyBlack:
@@ -1196,6 +1299,13 @@ func buildOps() []opDef {
 			ops = append(ops, opAdd(v, strings.Contains(f, "A"), strings.Contains(f, "C"), strings.Contains(f, "P")))
 		}
 	}
+	for _, kind := range []string{"non-empty-dir", "empty-dir"} {
+		for _, k := range []int{0, 3} {
+			for pos := range obstaclePositions {
+				ops = append(ops, opPurgeObstructed(k, kind, pos))
+			}
+		}
+	}
 	return ops
 }
 
@@ -1205,7 +1315,7 @@ func narrowOps(ops []opDef) []int {
 	for i, o := range ops {
 		switch o.kind {
 		case "Purge":
-			if o.name == "Purge(5)" {
+			if o.name == "Purge(5)" || (strings.Contains(o.name, "@") && !strings.HasPrefix(o.name, "Purge(0,non-empty-dir@")) {
 				continue
 			}
 		case "AddVersion":
@@ -1245,7 +1355,7 @@ func runHistory(c *vlib.Ctx, wc *wctx, ops []opDef, byName map[string]int, sd se
 		c.EngineError("registry: %v", err)
 		return "", "engine-error", false
 	}
-	w := &world{pos: pos, c: c, dir: wc.dir, reg: reg, idx: sd.cf.index(), cf: sd.cf, files: map[string]bool{}, verbose: verbose,
+	w := &world{pos: pos, c: c, wc: wc, dir: wc.dir, reg: reg, idx: sd.cf.index(), cf: sd.cf, files: map[string]bool{}, verbose: verbose,
 		wit: witness{Part: "history", Seed: seedPools[sd.pool].name, Phase: sd.phase, Cfg: sd.cf.String()}}
 	for _, x := range seedPools[sd.pool].vers {
 		if err := reg.AddResource(resID, x.Num, w.idx, x.A, x.C, x.P); err != nil {
@@ -1749,11 +1859,12 @@ func main() {
 			byName[o.name] = i
 		}
 		c.Rule(fmt.Sprintf("A: every set of <=4 (thorough: <=5, and <=4 of a 7-version alphabet with 0.0.0-beta and two suffixes of one triple) versions of {0.0.0,1.0.0,1.1.0,1.2.0-beta,2.0.0} x every (available, blacklisted, explicit pre-release) vector x every choice of <=1 current release x 2 insertion orders x all 24 registry settings (online, dev mode, use pre-releases, index none/no-auto-download/auto-download), each pool built through AddResource on a fresh resource, then the 24 settings applied one after the other (rotating start) with SelectVersions after each; "+
-			"B: BFS over operation histories, quick: depth 3 over %d operations (selectVersion, GetFile, Purge(0..3), Blacklist of 7 state-relative targets, toggles of dev mode/pre-releases/online, AddVersion of 4 new/existing/alias-spelled versions x 6 flag combinations), thorough: the same to depth 4 and all %d operations (Purge(5), 8 versions x 8 flag combinations) to depth 3, from %d pools of 1-8 versions x {nothing selected, selected and handed out} x 3 (wide: 6) registry settings, every history replayed on fresh resource objects (registry emptied, settings reset) over a real storage directory (files written before and listed after every Purge), states de-duplicated on (settings, version list in list order with flags, selected, active, files); "+
+			"B: BFS over operation histories, quick: depth 3 over %d operations (selectVersion, GetFile, Purge(0..3), Purge(0) with the file of the oldest/second-oldest/third-oldest version on disk replaced by a non-empty directory, Blacklist of 7 state-relative targets, toggles of dev mode/pre-releases/online, AddVersion of 4 new/existing/alias-spelled versions x 6 flag combinations), thorough: the same to depth 4 and all %d operations (Purge(5), Purge(0|3) with a non-empty or empty directory at each of the three positions, 8 versions x 8 flag combinations) to depth 3, from %d pools of 1-8 versions x {nothing selected, selected and handed out} x 3 (wide: 6) registry settings, every history replayed on fresh resource objects (registry emptied, settings reset) over a real storage directory (files written before and listed after every Purge), states de-duplicated on (settings, version list in list order with flags, selected, active, files); "+
 			"C: every identifier (<=2 directories, 9 base names, <=2 extensions) x version ({0,1,12,007}^3, 5 suffixes) of the file-name format; ScanStorage on real files; D: GetSelectedVersions for 0-3 resources x 24 settings. "+
 			"non-trivial = A: cases whose prescribed version is not the newest listed; B: distinct states with a purged file, a blacklisted version or active != selected; C: identifiers with directory and extension x versions with a suffix; D: cases with at least one resource", len(narrowOps(ops)), len(ops), len(seedPools)))
 		c.Assume("selection is compared where the code computes it (selectVersion/SelectVersions, a successful Blacklist, a GetFile with nothing selected); AddResource is documented as 'does not select new version', so a stale SelectedVersion between AddVersion and the next selection is not a violation")
 		c.Assume("'files of at least the requested number of further versions are still on disk' is read as: at least keep (or all) of the listed versions that are not active/selected/newest stable lose no file; a listed version that had no file counts as kept")
+		c.Assume("a version whose file path holds a directory (obstacle that Purge cannot or need not remove) counts as having its file: it may stay listed as available or be dropped; only a listed-available version with nothing at its path violates 'lists only existing files'")
 		c.Assume("newest stable version = newest listed version without the pre-release flag other than the dev version 0.0.0; active version = the version the registry's GetFile handed out last")
 		c.Assume("Blacklist: refusing is required when no other non-blacklisted version (of any kind) would remain and, with dev mode off, when the target is the only release version (not the dev build 0.0.0) that is not blacklisted (Blacklist documents 'ignore dev versions' for its count of valid versions); accepting is required when at least two release versions are not blacklisted; with dev mode on and only the dev build remaining, and for blacklisting the dev build itself when at most one release is left, both are accepted; re-blacklisting may be refused or accepted")
 		c.Assume("identifiers of the file-name enumeration do not themselves contain a version marker _v<n>-<n>-<n> in the file name; version strings are those of the documented pattern [0-9]+.[0-9]+.[0-9]+(-[a-z]+)?")
